@@ -1141,6 +1141,101 @@ func genEffects() string {
 	} else {
 		fmt.Fprintf(&b, "(* statements that write through something not local to their function *)\nDefinition shared_writes : list (bytes * bytes * write_target) := [\n  %s\n].\n\n", strings.Join(writes, ";\n  "))
 	}
-	fmt.Fprintf(&b, "Definition functions_analysed : nat := %d.\n", nFuncs)
+	fmt.Fprintf(&b, "Definition functions_analysed : nat := %d.\n\n", nFuncs)
+	// uses of packages outside the pure core: every selector on an imported package that is
+	// not one of fmt (without Print*/Scan*), strings, regexp, strconv, unicode, unicode/utf8,
+	// slices, sort, math, math/big, math/bits, cmp, errors, bytes, maps, or the repository's own
+	// packages.  A deterministic function of its arguments reads no file, clock, environment
+	// or random source; C19_outside_world_uses states which such uses exist.
+	pure := map[string]bool{"fmt": true, "strings": true, "regexp": true, "strconv": true, "unicode": true, "unicode/utf8": true,
+		"slices": true, "sort": true, "math": true, "math/big": true, "math/bits": true, "cmp": true, "errors": true, "bytes": true, "maps": true}
+	var uses []string
+	seenUse := map[string]bool{}
+	for _, dir := range dirs {
+		files, _ := filepath.Glob(filepath.Join(dir, "*.go"))
+		sort.Strings(files)
+		rel, _ := filepath.Rel(repo, dir)
+		for _, fn := range files {
+			if strings.HasSuffix(fn, "_test.go") {
+				continue
+			}
+			if src, err := os.ReadFile(fn); err == nil && strings.Contains(string(src), "//go:build verif") {
+				continue
+			}
+			fset := token.NewFileSet()
+			f, err := parser.ParseFile(fset, fn, nil, 0)
+			if err != nil {
+				continue
+			}
+			imported := map[string]string{} // local name -> path, for packages outside the pure core
+			for _, im := range f.Imports {
+				path := strings.Trim(im.Path.Value, "\"")
+				if pure[path] || strings.HasPrefix(path, "github.com/alowayed/go-univers/") {
+					if path != "fmt" {
+						continue
+					}
+				}
+				name := path[strings.LastIndex(path, "/")+1:]
+				if im.Name != nil {
+					name = im.Name.Name
+				}
+				imported[name] = path
+			}
+			add := func(fn, what string) {
+				k := rel + "\x00" + fn + "\x00" + what
+				if !seenUse[k] {
+					seenUse[k] = true
+					uses = append(uses, fmt.Sprintf("(%s, %s, %s)", coqStr(rel), coqStr(fn), coqStr(what)))
+				}
+			}
+			visit := func(fname string, n ast.Node) {
+				ast.Inspect(n, func(x ast.Node) bool {
+					se, ok := x.(*ast.SelectorExpr)
+					if !ok {
+						return true
+					}
+					id, ok := se.X.(*ast.Ident)
+					if !ok {
+						return true
+					}
+					path, ok := imported[id.Name]
+					if !ok || id.Obj != nil {
+						return true
+					}
+					if path == "fmt" {
+						// fmt is pure except where it touches the process's standard streams
+						if strings.HasPrefix(se.Sel.Name, "Print") || strings.HasPrefix(se.Sel.Name, "Scan") {
+							add(fname, "fmt."+se.Sel.Name)
+						}
+						return true
+					}
+					add(fname, path+"."+se.Sel.Name)
+					return true
+				})
+			}
+			for _, d := range f.Decls {
+				switch x := d.(type) {
+				case *ast.FuncDecl:
+					visit(x.Name.Name, x)
+				case *ast.GenDecl:
+					if x.Tok != token.IMPORT {
+						visit("", x)
+					}
+				}
+			}
+		}
+	}
+	appends := appendsToUnowned(dirs)
+	if len(appends) == 0 {
+		b.WriteString("(* append calls whose first argument is not a slice owned by the calling function: none *)\nDefinition appends_to_unowned : list (bytes * bytes * bytes) := [].\n\n")
+	} else {
+		fmt.Fprintf(&b, "(* append calls whose first argument is not a slice owned by the calling function: (package, function, argument) *)\nDefinition appends_to_unowned : list (bytes * bytes * bytes) := [\n  %s\n].\n\n", strings.Join(appends, ";\n  "))
+	}
+	sort.Strings(uses)
+	if len(uses) == 0 {
+		b.WriteString("Definition outside_world_uses : list (bytes * bytes * bytes) := [].\n")
+	} else {
+		fmt.Fprintf(&b, "(* (package directory, function or \"\" for a declaration, package.Name used) *)\nDefinition outside_world_uses : list (bytes * bytes * bytes) := [\n  %s\n].\n", strings.Join(uses, ";\n  "))
+	}
 	return b.String()
 }
